@@ -383,7 +383,9 @@ var genReq = rapid.Custom(func(t *rapid.T) Req {
 	r := Req{
 		Chunks: rapid.SliceOfN(genChunk, 0, 6).Draw(t, "chunks"),
 		Status: rapid.SampledFrom([]int{0, 0, 200, 201, 404, 500}).Draw(t, "status"),
-		CT:     rapid.SampledFrom([]string{"", "", "text/plain", "application/xhtml+xml; charset=utf-8"}).Draw(t, "ct"),
+		CT:     rapid.SampledFrom([]string{"", "", "text/plain", "application/xhtml+xml; charset=utf-8",
+			// types for which a server might be tempted to choose its own delivery mode
+			"text/event-stream", "Text/Event-Stream; charset=utf-8", "application/json", "application/octet-stream", "multipart/x-mixed-replace; boundary=b", "text/html; charset=utf-8", "image/svg+xml", "x"}).Draw(t, "ct"),
 		EH:     rapid.SampledFrom([]string{"none", "none", "header+body", "body", "nothing", "status"}).Draw(t, "eh"),
 		Stream: rapid.IntRange(0, 5).Draw(t, "stream") == 0,
 		Real:   rapid.IntRange(0, 7).Draw(t, "real") == 0,
